@@ -80,7 +80,7 @@ static unsigned long g_step;		/* visible steps executed */
 static uint32_t g_choice;		/* choice points passed */
 static int g_devpos;			/* next deviation in wk->d */
 static unsigned long g_last_change;	/* step of the last state-changing op */
-static int g_remain[5];
+static int g_remain[C_N];
 static int g_buffered;			/* total store-buffer entries of all threads */
 static int g_finishing;
 static int g_solo = -1;
